@@ -333,13 +333,17 @@ def compute_covariance_xx(seperation, subap1_diam, subap2_diam, r0, L0):
     x1 = seperation[..., 0] + (subap2_diam - subap1_diam) * 0.5
     r1 = numpy.sqrt(x1**2 + seperation[..., 1]**2)
 
+    x4 = seperation[..., 0] - (subap2_diam - subap1_diam) * 0.5
+    r4 = numpy.sqrt(x4**2 + seperation[..., 1]**2)
+
     x2 = seperation[..., 0] - (subap2_diam + subap1_diam) * 0.5
     r2 = numpy.sqrt(x2**2 + seperation[..., 1]**2)
 
     x3 = seperation[..., 0] + (subap2_diam + subap1_diam) * 0.5
     r3 = numpy.sqrt(x3**2 + seperation[..., 1]**2)
 
-    Cxx = (-2 * structure_function_vk(r1, r0, L0)
+    Cxx = (- structure_function_vk(r1, r0, L0)
+            - structure_function_vk(r4, r0, L0)
             + structure_function_vk(r2, r0, L0)
             + structure_function_vk(r3, r0, L0)
            )
@@ -352,13 +356,17 @@ def compute_covariance_yy(seperation, subap1_diam, subap2_diam, r0, L0):
     y1 = seperation[..., 1] + (subap2_diam - subap1_diam) * 0.5
     r1 = numpy.sqrt(seperation[..., 0]**2 + y1**2)
 
+    y4 = seperation[..., 1] - (subap2_diam - subap1_diam) * 0.5
+    r4 = numpy.sqrt(seperation[..., 0]**2 + y4**2)
+
     y2 = seperation[..., 1] - (subap2_diam + subap1_diam) * 0.5
     r2 = numpy.sqrt(seperation[..., 0]**2 + y2**2)
 
     y3 = seperation[..., 1] + (subap2_diam + subap1_diam) * 0.5
     r3 = numpy.sqrt(seperation[..., 0]**2 + y3**2)
 
-    Cyy = (-2 * structure_function_vk(r1, r0, L0)
+    Cyy = (- structure_function_vk(r1, r0, L0)
+           - structure_function_vk(r4, r0, L0)
            + structure_function_vk(r2, r0, L0)
            + structure_function_vk(r3, r0, L0)
            )
